@@ -189,7 +189,14 @@ func runC12(r *rt.Runner) {
 			if rng.IntN(3) == 0 {
 				// DSC comment lines between tokens
 				pos := rng.IntN(len(parts) + 1)
-				parts = append(parts[:pos], append([]string{"\n%%Title: multi call\n%%+ continued\n"}, parts[pos:]...)...)
+				le := []string{"\n", "\r", "\r\n"}[rng.IntN(3)]
+				parts = append(parts[:pos], append([]string{le + "%%Title: multi call" + le + "%%+ continued" + le}, parts[pos:]...)...)
+			}
+			if rng.IntN(4) == 0 {
+				// the empty name literal: a lone slash is a complete token
+				pos := rng.IntN(len(parts) + 1)
+				parts = append(parts[:pos], append([]string{"/", "pop"}, parts[pos:]...)...)
+				c.Count("multi-call programs with an empty name literal")
 			}
 			if len(parts) < 2 {
 				c.Skip("program too short to split")
